@@ -212,6 +212,7 @@ func (nv *nodeVariable) Execute(ctx *ExecutionContext, writer TemplateWriter) *E
 		return err
 	}
 
+	verifEv("Write", verifB(ctx.Autoescape), verifB(nv.expr.FilterApplied("safe")), verifB(value.safe), verifB(value.IsString()), "", "", ctx)
 	if !nv.expr.FilterApplied("safe") && !value.safe && value.IsString() && ctx.Autoescape {
 		// apply escape filter
 		value, err = filters["escape"](value, nil)
